@@ -6,7 +6,7 @@ from . import roles
 from . import c02
 from .mir import Site, Unverifiable, callee_is, callee_path, const_int, const_str, op_fn, op_local, op_place, place_fields, place_str
 
-CFGS = {"quick": ["default", "all"], "thorough": ["default", "all", "nodefault"]}
+CFGS = {"quick": ["default", "all", "zoo:default"], "thorough": ["default", "all", "nodefault", "zoo:default"]}
 
 EXPLANATION = """
 (R1) keyword pairing: Collection::find selects the map `given|when|then` by StepType `Given|When|Then` (path table),
@@ -305,4 +305,12 @@ def r5(F, R):
     c02.r7(F, R)
 
 
-RULES = [("R1", r1, None), ("R2", r2, None), ("R3", r3, None), ("R4", r4, None), ("R5", r5, None)]
+def r6(F, R):
+    """"... receives the whole match and every capture group ..., with an empty string for groups that did not participate" also holds
+    for functions registered through the attribute macros with a slice argument (C19.R4 on the zoo's expansions)."""
+    from . import c19
+    c19.r4(F, R)
+
+
+_LIB = ["default", "all", "nodefault"]
+RULES = [("R1", r1, _LIB), ("R2", r2, _LIB), ("R3", r3, _LIB), ("R4", r4, _LIB), ("R5", r5, _LIB), ("R6", r6, ["zoo:default"])]
